@@ -15,6 +15,7 @@ from scipy.optimize import OptimizeResult
 
 from ..harness import close
 from ..monitors.seams import Seams
+from .. import exprcase as X
 from ..recipes import ast as A
 from ..recipes import build as B
 from ..recipes import gen as G
@@ -28,6 +29,7 @@ DV = [
     {"k": "var", "name": "a"},
     {"k": "var", "name": "b"},
     {"k": "par", "name": "p", "val": 1.5},
+    {"k": "vpar", "name": "w", "vals": [1.0, 0.5, -2.0]},
     {"k": "vec", "name": "x", "n": 3},
     {"k": "vec", "name": "y", "n": 3},
     {"k": "vec", "name": "z", "n": 2},
@@ -102,7 +104,7 @@ def info(tier):
         "constraints, is_satisfied and violation at 4 points off the boundary, and the SciPy constraint dicts captured at "
         "the minimize seam probed at 6 points (fun sign pattern, fun value, jac vs jet gradient); distinct = canonical "
         "relation hashes" % len(matrix_cases()),
-        "required_cells": sorted({c for c, _, _ in matrix_cases()}) + ["multi-relation-problem", "history:objective-swap-keeps-constraints"],
+        "required_cells": sorted({c for c, _, _ in matrix_cases()}) + ["multi-relation-problem", "history:objective-swap-keeps-constraints", "history:parameter-set-between-solves"],
         "assumptions": ["probe points keep |lhs-rhs| >= 1e-3 (the relation is decided away from the boundary)",
                         "a relation the API rejects with an exception is 'unsupported' unless it is a shape mismatch, where rejection is required"],
     }
@@ -337,6 +339,14 @@ def run_multi(rec, rng, seams, rels, decls, cell):
             rec.cmp(1, "history:objective-swap-keeps-constraints")
         if not _check_dicts(rec, rng, seams, P, D, rels, counts, names, pv, cell, show, phase):
             return
+    # Parameter.set() between two solves of the same problem: fun AND jac handed over on the next solve follow the current values
+    if b.params and any(x[0] in ("par", "pel", "vparv") for r in rels for x in A.walk(r)):
+        for step, newvals in enumerate(({"p": 3.0, "w": [2.0, -1.0, 0.25]}, {"p": -0.5, "w": [0.0, 1.0, 4.0]})):
+            b.set_params(newvals)
+            D2 = R.Decls(X.with_param_values(decls, newvals))
+            rec.cmp(1, "history:parameter-set-between-solves")
+            if not _check_dicts(rec, rng, seams, P, D2, rels, counts, names, D2.param_values(), cell, show, f"after-Parameter.set-{step + 1}"):
+                return
     rec.sample(show, cap=5)
 
 
@@ -419,6 +429,13 @@ def multi_cases(rng):
         out.append([deep_relation(n_, s_), lc])
         out.append([mvr, deep_relation(n_, s_)])
     out.append([lc, mvr, ["rel", "==", ["dot", _x, _y], ["raw", 1.0, "float"], "direct"]])
+    # relations whose coefficients are Parameters (linear in the variables: the Jacobian is a "constant" only until set() is called)
+    par_lin = ["rel", "<=", ["bin", "+", ["bin", "*", _p, _a], _b], ["raw", 4.0, "float"], "direct"]
+    par_rhs = ["rel", ">=", ["bin", "-", _a, ["bin", "*", _p, _b]], _p, "direct"]
+    par_vec = ["rel", "<=", ["matmul", ["vparv", "w"], _x], ["raw", 3.0, "float"], "direct"]
+    par_nl = ["rel", "==", ["bin", "*", _p, ["fn", "sin", _a]], ["raw", 0.25, "float"], "direct"]
+    for combo in ([par_lin, lc], [par_rhs, par_lin], [par_vec, par_lin, mvr], [par_nl, par_lin], [par_lin], [par_vec]):
+        out.append(combo)
     return out
 
 
